@@ -575,6 +575,52 @@ def run_case(ctx, rng, job):
             classImplementsOnly(object)       # back to "object implements nothing" for the next case
 
 
+def super_after_failed_query(ctx, rng):
+    """A first super query that fails in the middle (the resolution order of the specification being put together
+    is inconsistent and the strict setting is on for the duration of that one query) must not leave anything behind:
+    the same and the other proxies of the object are asked afterwards, with the setting back to normal."""
+    from zope.interface import ro
+    if ro.C3.STRICT_IRO:
+        return
+    n = rng.randint(2, 3)
+    ifs = [util.mkiface('IS%d' % i) for i in range(n)]
+    own = util.mkiface('ISown')
+    A = type('SA', (object,), {})
+    B = implementer(*ifs)(type('SB', (A,), {}))
+    C = implementer(*reversed(ifs))(type('SC', (A,), {}))
+    D = type('SD', (B, C), {})
+    if rng.random() < 0.5:
+        D = implementer(own)(D)
+    top = type('SE', (D,), {}) if rng.random() < 0.4 else D
+    d = top()
+    implementedBy(top)          # everything but the proxies' specifications exists before the strict query
+    mro = list(top.__mro__)
+    start = rng.choice(mro[:-1])
+    ro.C3.STRICT_IRO = True
+    try:
+        try:
+            providedBy(super(start, d))
+        except ro.InconsistentResolutionOrderError:
+            ctx.count('super_queries_failed_under_a_strict_order')
+        else:
+            ctx.count('super_queries_answered_under_a_strict_order')
+    finally:
+        ro.C3.STRICT_IRO = False
+    declared = {B: set(ifs), C: set(ifs), D: {own} if own in implementedBy(D).declared else set()}
+    for k in mro[:-1]:
+        # (this world may have declared something on ``object`` itself: the last class of every MRO)
+        exp = {Interface} | set(implementedBy(object).flattened())
+        for later in mro[mro.index(k) + 1:]:
+            exp |= declared.get(later, set())
+        ctx.ev(2)
+        got = set(providedBy(super(k, d)).flattened())
+        got2 = set(implementedBy(super(k, d)).flattened())
+        if got != exp or got2 != exp:
+            ctx.violation('super-after-a-failed-first-query', {'asked_first': start.__name__, 'proxy_of': k.__name__,
+                                                                 'expected': sorted(map(nm, exp)), 'providedBy': sorted(map(nm, got)),
+                                                                 'implementedBy': sorted(map(nm, got2))}, abort=False)
+
+
 def _run_case(ctx, rng, job, w):
     big = job['tier'] == 'thorough'
     nsteps = rng.randint(5, 60 if big else 30)
@@ -619,6 +665,7 @@ def _run_case(ctx, rng, job, w):
         ctx.count('histories_with_narrowing', int(w.narrowed))
         ctx.count('histories_mutating_class_with_dependents', int(w.mutated_after_dependents))
     else:
+        super_after_failed_query(ctx, rng)
         nontrivial = changed_after_super > 0 and any(len(type(o).__mro__) >= 3 for o in w.objs)
         ctx.count('histories_changed_after_first_super_query', int(changed_after_super > 0))
     ctx.shape(kinds, nontrivial)
